@@ -219,6 +219,18 @@ CHECKS = {
              'PARTIAL (named): agreement with the continuous equations on general low-degree states and the analytic gradient-wind balance U^2 + 2 Omega a U = c R T are analytic-oracle TESTS on the real code (exact polynomial algebra in (x,y,z) with the documented vertical differences, 1e-9), not theorems: the abstract operators carry no sphere calculus; the zonal-flow theorem is for the dry classes; T5.4 (refinement to an advective-form spec) not done.',
         note=TB + 'Known finding: shallow_water_states factories hard-code radius 1 and 2 Omega = 1. Observation (not a finding, see DESIGN 11.3): isothermal_rest_atmosphere(surface_height=...) uses a lapse-rate barometric formula, so its state is not the hydrostatically balanced one the property speaks of.',
         design='6/C05'),
+    'C12': dict(
+        technique='Lean 4 theorems: the scaling group (length, time, mass, temperature factors) acts on parameters and states of the Dynamics / shallow-water / Held-Suarez models through the weights of C18\'s Scale homomorphism; '
+                  'equivariance of every term (dimensional homogeneity) and of every integrator step, by induction over histories; correspondence of the model action with what the real from_si / Scale code produces under two scales; '
+                  'two-scale differential of tendencies, inverses and trajectories on the real classes; static pass over /repo for scale bypasses (module constants / defaults evaluated under DEFAULT_SCALE) against a justified allow-list',
+        text='Machine-checked proof: the named weights are Scale.w of their dimension vectors, a homomorphism in the scale and the dimension vector; the parameter action is a group action; nondimensionalisation under scale b = under scale a times the weight of the change of scale; '
+             'for parameters related by the action and every additive constant of ln ps: explicit_terms, implicit_terms and implicit_inverse of the dry, with-time, moist and cloud classes are equivariant (one more inverse-time weight), the implicit terms annihilate the ln ps constant, the scaled inverse has the nine scaled blocks; '
+             'the same for shallow water (eta scaled by the time factor) and for Held-Suarez friction, equilibrium temperature, relaxation and level-wise explicit terms (over the reals, exp c = pressure weight); '
+             'one step of every integrator (Euler pair, CN-RK2, leapfrog, every low-storage RK and IMEX-RK tableau) commutes with the action when dt is scaled; resolvent equivariance follows from equivariance of G and two-sided resolvents (C03); trajectories and filtered steps of any history commute; '
+             'the exponential and diffusion step filters are scale-invariant when dt and tau are both times; instantiated for the four primitive-equation classes on tree vectors for any scheme and any history. Negative witness: scaling g like a velocity breaks the identity. '
+             'PARTIAL (named): linearity / constant-annihilation of the horizontal operators and the constant-mode behaviour of the numerically inverted blocks are named hypotheses validated on the real code each run; T12.2 is instantiated concretely for the primitive-equation classes only (shallow water and Held-Suarez trajectories: abstract theorem + two-scale differential).',
+        note=TB + 'implicit_inverse under widely different scales is compared through an a-posteriori bound computed from the matrices numpy.linalg.inv actually returned (diagonal similarity loses accuracy: measured up to 3e-10). Known finding: shallow_water.default_filters uses a tau default expressed in DEFAULT_SCALE units.',
+        design='6/C12'),
 }
 
 NOT_YET = {
